@@ -1,3 +1,7 @@
 K("c08_flushdb_watch", "eng2s", ["C08", "C18", "C01"], tier="quick", timeout=900,
   desc="FLUSHDB 0 with the same key present in db 0 (with TTL) and db 1: db 0 emptied incl. expiry index, watchers of the flushed key notified, db 1 untouched and its watchers not notified",
   encodes=["StorageEngine::flush_db", "was_modified_since", "register_watch"], bounds="2 databases x 2 shards (const shrunk); 1-byte values; unwind 5", stubs=STD_STUBS)
+
+K("c08_two_watchers_unwatch", "eng", ["C08"], tier="quick", timeout=900,
+  desc="two connections WATCH the same key, the key is modified or not (symbolic), one connection UNWATCHes: the other connection's was_modified_since answers exactly 'modified' (an UNWATCH by someone else neither hides nor invents a change)",
+  encodes=["StorageEngine::register_watch", "unregister_watch", "was_modified_since", "ShardWatchTracker::*", "StorageEngine::append"], bounds="one 2-byte string, one appended symbolic byte; unwind 5", stubs=STD_STUBS)
